@@ -239,9 +239,17 @@ func (e *Eng) havocThrough(st *State, a *Val) {
 
 // havocCall: un-inlined in-package callee: havoc its static write set.
 func (e *Eng) havocCall(callee *ssa.Function, c *ssa.CallCommon, args []*Val, st *State) *Val {
-	for _, r := range sortedKeys(e.modSet(callee)) {
-		e.havocReg(st, r)
+	oldFr := e.get(st, frRegion, "Int")
+	mods := e.modSet(callee)
+	gen := e.modGeneral[callee]
+	for _, r := range sortedKeys(mods) {
+		if gen != nil && !gen[r] && r != frRegion && r != clockRegion {
+			e.havocRegFresh(st, r, oldFr)
+		} else {
+			e.havocReg(st, r)
+		}
 	}
+	e.sc.assume(sx(">=", e.get(st, frRegion, "Int"), oldFr), "frontier monotone over call")
 	return e.havocResults(c, st)
 }
 
@@ -461,8 +469,16 @@ func (e *Eng) applyFuncSpec(fr *Frame, fs *FuncSpec, callee *ssa.Function, c *ss
 	}
 	oldFr := e.get(st, frRegion, "Int")
 	oldClock := e.get(st, clockRegion, "Int")
+	var gen map[string]bool
+	if len(fs.Assigns) == 0 {
+		gen = e.modGeneral[callee]
+	}
 	for _, r := range sortedKeys(mods) {
-		e.havocReg(st, r)
+		if gen != nil && !gen[r] && r != frRegion && r != clockRegion {
+			e.havocRegFresh(st, r, oldFr)
+		} else {
+			e.havocReg(st, r)
+		}
 	}
 	e.sc.assume(sx(">=", e.get(st, frRegion, "Int"), oldFr), "frontier monotone over call")
 	e.sc.assume(sx(">=", e.get(st, clockRegion, "Int"), oldClock), "clock monotone over call")
@@ -472,6 +488,9 @@ func (e *Eng) applyFuncSpec(fr *Frame, fs *FuncSpec, callee *ssa.Function, c *ss
 		rs = append(rs, e.havocVal(st, "res_"+callee.Name(), sig.Results().At(i).Type()))
 	}
 	env.result = rs
+	if len(fs.Ensures) > 0 {
+		env = e.withLets(fs, env, st, old)
+	}
 	for _, en := range fs.Ensures {
 		t := e.evalClauseEnv(en, env, st, old)
 		e.sc.assume(implies(g, t), "callee ensures "+key+"/"+en.Label)
@@ -568,7 +587,7 @@ func (e *Eng) siteSets(fr *Frame, kind, name string, st *State, g string, res *V
 					e.errf("ghost set %s: %v", s.SetGhost, r)
 				}
 			}()
-			v := e.eval(s.SetExpr, env, st, fr.old)
+			v := e.eval(s.SetExpr, env, st, fr.oldFor(st))
 			e.set(st, "G."+s.SetGhost, srt, v.T, "ghost set at "+name)
 			e.siteHit(s)
 		}()
@@ -596,7 +615,7 @@ func (e *Eng) siteAsserts(fr *Frame, kind, name string, pos token.Pos, st *State
 				env.vars[k] = v
 			}
 		}
-		t := e.evalClause(s.Clause, env, st, fr.old, fr)
+		t := e.evalClause(s.Clause, env, st, fr.oldFor(st), fr)
 		e.siteHit(s)
 		e.oblige("site", kind+":"+name+"/"+s.Clause.Label, s.Clause.Props, pos, g, t)
 	}
@@ -659,13 +678,22 @@ func (e *Eng) rootSpec() *FuncSpec {
 }
 
 func (e *Eng) havocProtected(st *State, ls *LockSpec) {
-	oldFr := e.get(st, frRegion, "Int")
 	for _, p := range ls.Protects {
 		for _, r := range e.resolveRegionPattern(p) {
+			before := e.get(st, r, e.regionSort[r])
 			e.havocReg(st, r)
+			// objects allocated by the function under verification and not yet stored anywhere
+			// (unpublished) cannot have been written by other goroutines: they keep their contents
+			if strings.HasPrefix(r, "F.") || strings.HasPrefix(r, "C.") {
+				for _, ref := range sortedKeys(e.allocRefs) {
+					if e.published[ref] {
+						continue
+					}
+					e.sc.assume(eq(sel(st.reg[r], ref), sel(before, ref)), "unpublished local object keeps its fields across lock acquisition")
+				}
+			}
 		}
 	}
-	_ = oldFr
 }
 
 func (e *Eng) assumeLockInvs(ls *LockSpec, recv *Val, st *State, g string) {
